@@ -2,6 +2,8 @@
 from .. import gen, bridge, probes
 from ..ref import bip32 as rb32, bip85 as rb85, secp, path as rpath
 
+from ..core import refused
+
 PROP = "C12"
 LEVEL = "exploration"
 SHARDS = {"quick": 8, "thorough": 16}
@@ -132,11 +134,7 @@ def judge_output(ctx, case, tap):
 def judge_reject(ctx, case):
     xk, b85, node = mk(case)
     app, param, index = case["app"], case.get("param"), case["index"]
-    try:
-        got = call(b85, app, param, index)
-        ok, outcome = False, "returned"
-    except Exception as e:  # noqa
-        got, ok, outcome = e, True, "raised:" + type(e).__name__
+    ok, got, outcome = refused(lambda: call(b85, app, param, index))      # (stable refusal: asked three times in a row)
     mech = "C12.reject.negative_index" if isinstance(index, int) and not isinstance(index, bool) and index < 0 and case["tag"].startswith("index") \
         else "C12.reject.%s" % case["tag"].split(":")[0]
     return ctx.judge("reject", ok, case, "raise", got, cls="reject|%s|%s" % (app, case["tag"]), outcome=outcome.split(":")[0], mech=mech)
